@@ -390,6 +390,69 @@ func plyForeignBinaryLE() (File, error) {
 	return f, layoutPLY(&f)
 }
 
+// plyForeignAsciiAligned: the fixed-width / right-aligned layout of table-oriented exporters — every
+// body line starts with blanks, columns are padded with runs of blanks (tabs in the "tabs" variant),
+// lines end in a trailing blank.  A point cloud (faces == false) or a mesh whose last face is a quad.
+func plyForeignAsciiAligned(faces, tabs bool) (File, error) {
+	var b strings.Builder
+	b.WriteString("ply\nformat ascii 1.0\ncomment hand encoded, foreign layout D (aligned columns)\nelement vertex 5\n")
+	b.WriteString("property float x\nproperty float y\nproperty float z\n")
+	if faces {
+		b.WriteString("element face 2\nproperty list uchar int vertex_indices\n")
+	}
+	b.WriteString("end_header\n")
+	sep := " "
+	if tabs {
+		sep = "\t"
+	}
+	for i := 0; i < 5; i++ {
+		p := posOf(i)
+		fmt.Fprintf(&b, "  %s%12g%s%s%12g%s%12g \n", sep, p[0], sep, sep, p[1], sep, p[2])
+	}
+	id, prims := "ply-foreign/ascii-aligned-cloud", 5
+	if faces {
+		fmt.Fprintf(&b, "   3%s  0 %s 1   2 \n", sep, sep)
+		fmt.Fprintf(&b, " %s 4   2   1%s  3   4\n", sep, sep)
+		id, prims = "ply-foreign/ascii-aligned-quad-last", 3
+	}
+	if tabs {
+		id += "-tabs"
+	}
+	f := File{ID: id, Family: "ply-foreign", Decoder: "ply", Data: []byte(b.String()), NVerts: 5, NPrims: prims, Pos: truthPos(5), PosTol: 1e-6}
+	return f, layoutPLY(&f)
+}
+
+// plyForeignBinaryQuadLast: the most common layout of all (`list uchar int vertex_indices`, float
+// coordinates) with a triangle followed by two quads — the file ends inside a quad.
+func plyForeignBinaryQuadLast(bigEndian bool) (File, error) {
+	var b bytes.Buffer
+	var bo binary.ByteOrder = binary.LittleEndian
+	name := "binary_little_endian"
+	if bigEndian {
+		bo, name = binary.BigEndian, "binary_big_endian"
+	}
+	b.WriteString("ply\nformat " + name + " 1.0\ncomment hand encoded, foreign layout E\nelement vertex 6\n")
+	b.WriteString("property float x\nproperty float y\nproperty float z\n")
+	b.WriteString("element face 3\nproperty list uchar int vertex_indices\nend_header\n")
+	for i := 0; i < 6; i++ {
+		for _, x := range posOf(i) {
+			binary.Write(&b, bo, float32(x))
+		}
+	}
+	for _, face := range [][]int32{{0, 1, 2}, {2, 1, 3, 4}, {4, 3, 5, 0}} {
+		b.WriteByte(byte(len(face)))
+		for _, i := range face {
+			binary.Write(&b, bo, i)
+		}
+	}
+	id := "ply-foreign/le-quad-last"
+	if bigEndian {
+		id = "ply-foreign/be-quad-last"
+	}
+	f := File{ID: id, Family: "ply-foreign", Decoder: "ply", Data: b.Bytes(), NVerts: 6, NPrims: 5, Pos: truthPos(6), PosTol: 1e-6}
+	return f, layoutPLY(&f)
+}
+
 // ---------------------------------------------------------------------------------------------
 // binary STL (80-byte header, uint32 count, 50 bytes per triangle)
 // ---------------------------------------------------------------------------------------------
@@ -576,6 +639,11 @@ func family(thorough bool) (files []File, errs []string) {
 	add(plyForeignAscii(false))
 	add(plyForeignBinary())
 	add(plyForeignBinaryLE())
+	add(plyForeignAsciiAligned(false, false))
+	add(plyForeignAsciiAligned(true, false))
+	add(plyForeignAsciiAligned(false, true))
+	add(plyForeignBinaryQuadLast(false))
+	add(plyForeignBinaryQuadLast(true))
 	for t := 0; t <= 2; t++ {
 		add(stlFile(t), nil)
 	}
